@@ -136,6 +136,7 @@ pub(crate) fn restore_repository<S: IndexedTree>(
         dest,
         &file_infos.names,
         file_infos.file_lengths,
+        &file_infos.preexisting,
         file_infos.r,
         file_infos.restore_size,
         opts.sparse.unwrap_or_default(),
@@ -535,6 +536,7 @@ fn restore_contents<S: Open>(
     dest: &LocalDestination,
     filenames: &Filenames,
     file_lengths: Vec<u64>,
+    preexisting: &[bool],
     restore_info: RestoreInfo,
     restore_size: u64,
     sparse: SparseRestore,
@@ -662,7 +664,10 @@ fn restore_contents<S: Open>(
                                     sizes_guard[file_idx] = 0;
                                 }
                                 drop(sizes_guard);
-                                if !is_sparse {
+                                // A hole may only be left where the file is known to contain zeros,
+                                // i.e. in files created by this restore; a file which existed before
+                                // may hold other data at this position.
+                                if !is_sparse || preexisting[file_idx] {
                                     dest.write_at(path, start, &data).unwrap();
                                 }
                                 p.inc(size);
@@ -692,6 +697,8 @@ pub struct RestorePlan {
     names: Filenames,
     /// The length of the files to restore
     file_lengths: Vec<u64>,
+    /// Whether something existed at the destination path of the file before restoring
+    preexisting: Vec<bool>,
     /// The restore information
     r: RestoreInfo,
     /// candidates for hardlinks
@@ -801,6 +808,8 @@ impl RestorePlan {
             }
 
         let file_idx = self.names.len();
+        self.preexisting
+            .push(std::fs::symlink_metadata(dest.path(&name)).is_ok());
         self.names.push(name);
         let mut file_pos = 0;
         let mut has_unmatched = false;
